@@ -1,19 +1,25 @@
-"""Translator util.sh + canvas -> coq/gen/Gen_Orch.v: the shape of the shell code the orchestrator models
-(C03/C04/C11: Orch/OrchDefs.v, Orch/RunLock.v) transcribe.
+"""Translator util.sh + canvas -> coq/gen/Gen_Orch.v (C04/C11; vocabulary: coq/theories/Orch/ShapeDefs.v).
 
-Pinned, line by line after normalisation (comments, `local` declarations, `info` messages and blank lines
-dropped, white space squeezed):
-  robsd()          the loop: skip test first; queue-full test `-eq ncpu` and what is done with $_jobs; the
-                   background start and `$!`; where the barrier stands and that it clears $_jobs; end recorded
-                   then `return 0`; the synchronous start in the foreground
-  step_exec_job()  in-flight record (-e -1), the command's status, completion record, hook, `return 1`
-  trap_exit()      report / mail / end hook / lock_release / removal of an empty build directory
-  lock_acquire()   the refusal test
-  lock_release()   the ownership test
-  canvas           `set -eu`, the exit trap, lock_acquire after build_init and before the first step
-Known variants of single statements are recognised and reported as such in Gen_Orch.v (the Coq tie
-Orch/OrchTie.v then fails, naming the variant); anything else raises: the tie is reported as broken rather
-than guessed."""
+What is read, after normalisation (comments, `local` declarations, `info` messages and blank lines dropped,
+white space squeezed):
+  robsd()          argument loop and set-up pinned as text; the BODY of `steps -o N | while read ...; do ... done` is
+                   parsed into a statement list: every statement group is recognised by its text and written down as one
+                   constructor, IN THE ORDER IN WHICH IT STANDS IN THE SOURCE (head / parallel branch / synchronous
+                   branch / tail).  A reordered, dropped or doubled statement therefore gives another list, and it is
+                   Coq (Orch/ShapeSem.v: the meaning of a list; Orch/OrchTie.v: the meaning of the shipped list is
+                   main_step) that says whether the loop still is the modelled one - not this file.
+  step_exec_job()  the same: statement list after the argument loop (in-flight record with its -e / -d values, the two
+                   clock reads, the completion record, the hook, `return 1`)
+  trap_exit()      the same (report/mail decision, end hook, lock_release, removal of an empty build directory)
+  lock_acquire()   the refusal test;  lock_release(): the ownership test (enum values consumed by RunLockProofs)
+  robsd_hook()     whether the hook inherits the loop's standard input (HookStdinInherited) or gets /dev/null
+  canvas           from the EXIT trap to the end, as text (build_id / step_next, build_init, lock_acquire, skip records
+                   only at step 1, the DETACH block with the re-installed trap, robsd -b .. -s ..)
+  pinned as text only (no meaning in Coq; a change is reported as a broken tie): jobs_count, has_steps, lock_alive,
+  steps, step_skip, report_receiver's canvas branch is NOT pinned.
+A statement group this file does not know raises: the tie is reported as broken rather than guessed.
+NOT covered by any translator: step_eval, step_value, step_exec (except C13's pin), report, step_id, robsd-wait.c
+(a stub outside OpenBSD - see t_wait below: the stub itself is pinned so that a functional version would be noticed)."""
 import os, re
 from t_util import func_body, norm
 
@@ -27,58 +33,61 @@ ARGLOOP = lambda opts: ['while [ $# -gt 0 ]; do', 'case "$1" in'] + opts + ['*) 
 ROBSD_HEAD = ARGLOOP(['-b) shift; _builddir="$1";;', '-s) shift; _step="$1";;']) + [
     ': "${_builddir:?}"', ': "${_step:?}"',
     '_ncpu="$(config_value ncpu)"', '_steps="$(step_path "${_builddir}")"',
-    'steps -o "${_step}" | while read -r _step _name _parallel; do',
-    'if step_eval -n "${_name}" "${_steps}" 2>/dev/null &&', 'step_skip; then', 'continue', 'fi',
-    'if [ -n "${_parallel}" ]; then',
-    'if [ "$(jobs_count "${_jobs}")" -eq "${_ncpu}" ]; then']
-QUEUE = {
-    'QWKeepStillRunning': ['_jobs="$(echo "${_jobs}" | xargs "${ROBSDWAIT}" | xargs)"'],
-    'QWDropOldest': ['echo "${_jobs}" | xargs "${ROBSDWAIT}" >/dev/null', '_jobs="$(jobs_shift "${_jobs}")"'],
-}
-ROBSD_PAR = ['fi',
-             'step_exec_job -b "${_builddir}" -s "${_steps}" \\', '-i "${_step}" -n "${_name}" &',
-             '_jobs="${_jobs}${_jobs:+ }${!}"',
-             'else']
-BARRIER = ['if [ -n "${_jobs}" ]; then', 'echo "${_jobs}" | xargs "${ROBSDWAIT}" -a', '_jobs=""', 'fi']
-END = ['if [ "${_name}" = "end" ]; then',
-       '_d1="$(duration_total -s "${_steps}")"', '_d0="$(duration_prev "${_name}" || :)"',
-       'if [ -n "${_d0}" ]; then', '_delta="$((_d1 - _d0))"', 'else', '_delta=0', 'fi',
-       'step_write -t -s "${_step}" -n "${_name}" -e 0 \\', '-d "${_d1}" -a "${_delta}" "${_steps}"',
-       'return 0', 'fi']
-SYNC = ['step_exec_job -b "${_builddir}" -s "${_steps}" \\', '-i "${_step}" -n "${_name}"']
-ROBSD_TAIL = ['fi',
-              'if [ "${_name}" = "reboot" ] &&', '[ "$(config_value reboot)" -eq 1 ]; then', 'return 0', 'fi',
-              'if ! lock_alive "${ROBSDDIR}" "${_builddir}"; then',
-              '[ -z "${_jobs}" ] || echo "${_jobs}" | xargs "${ROBSDWAIT}" -a', 'return 1', 'fi',
-              'done']
+    'steps -o "${_step}" | while read -r _step _name _parallel; do']
 
-STEP_EXEC_JOB = ARGLOOP(['-b) shift; _builddir="$1";;', '-s) shift; _steps="$1";;', '-i) shift; _id="$1";;', '-n) shift; _name="$1";;']) + [
-    ': "${_builddir:?}"', ': "${_id:?}"', ': "${_name:?}"', ': "${_steps:?}"',
-    '_log="$(log_id -b "${_builddir}" -n "${_name}" -s "${_id}")"',
-    '_t0="$(date \'+%s\')"',
-    'step_write -t -l "${_log}" -s "${_id}" -n "${_name}" -e -1 -d -1 "${_steps}"',
-    'step_exec -l "${_builddir}/${_log}" -s "${_name}" || _exit="$?"',
-    '_t1="$(date \'+%s\')"', '_d1="$((_t1 - _t0))"', '_d0="$(duration_prev "${_name}" || :)"',
-    'if [ -n "${_d0}" ]; then', '_delta="$((_d1 - _d0))"', 'else', '_delta=0', 'fi',
-    'step_write -l "${_log}" -s "${_id}" -n "${_name}" -e "${_exit}" -d "${_d1}" \\', '-a "${_delta}" "${_steps}"',
-    'robsd_hook -v "step-exit=${_exit}" -v "step-name=${_name}"',
-    'case "${_MODE}" in', 'robsd-regress)',
-    'regress_step_after -b "${_builddir}" -e "${_exit}" -n "${_name}" || return 1', ';;',
-    '*)', '[ "${_exit}" -eq 0 ] || return 1', ';;', 'esac']
+# statement groups of the loop body -> constructor of ShapeDefs.lstmt
+LOOP_STMTS = [
+    ('LSkipTest', ['if step_eval -n "${_name}" "${_steps}" 2>/dev/null &&', 'step_skip; then', 'continue', 'fi']),
+    ('LQueueFull QWKeepStillRunning', ['if [ "$(jobs_count "${_jobs}")" -eq "${_ncpu}" ]; then',
+                                       '_jobs="$(echo "${_jobs}" | xargs "${ROBSDWAIT}" | xargs)"', 'fi']),
+    ('LQueueFull QWDropOldest', ['if [ "$(jobs_count "${_jobs}")" -eq "${_ncpu}" ]; then',
+                                 'echo "${_jobs}" | xargs "${ROBSDWAIT}" >/dev/null', '_jobs="$(jobs_shift "${_jobs}")"', 'fi']),
+    ('LForkJob', ['step_exec_job -b "${_builddir}" -s "${_steps}" \\', '-i "${_step}" -n "${_name}" &',
+                  '_jobs="${_jobs}${_jobs:+ }${!}"']),
+    ('LBarrier', ['if [ -n "${_jobs}" ]; then', 'echo "${_jobs}" | xargs "${ROBSDWAIT}" -a', '_jobs=""', 'fi']),
+    ('LEnd', ['if [ "${_name}" = "end" ]; then',
+              '_d1="$(duration_total -s "${_steps}")"', '_d0="$(duration_prev "${_name}" || :)"',
+              'if [ -n "${_d0}" ]; then', '_delta="$((_d1 - _d0))"', 'else', '_delta=0', 'fi',
+              'step_write -t -s "${_step}" -n "${_name}" -e 0 \\', '-d "${_d1}" -a "${_delta}" "${_steps}"',
+              'return 0', 'fi']),
+    ('LSyncJob', ['step_exec_job -b "${_builddir}" -s "${_steps}" \\', '-i "${_step}" -n "${_name}"']),
+    ('LReboot', ['if [ "${_name}" = "reboot" ] &&', '[ "$(config_value reboot)" -eq 1 ]; then', 'return 0', 'fi']),
+    ('LLockAlive', ['if ! lock_alive "${ROBSDDIR}" "${_builddir}"; then',
+                    '[ -z "${_jobs}" ] || echo "${_jobs}" | xargs "${ROBSDWAIT}" -a', 'return 1', 'fi']),
+]
+IF_PARALLEL = 'if [ -n "${_parallel}" ]; then'
 
-TRAP_EXIT = ARGLOOP(['-r) shift; _robsddir="$1";;', '-b) shift; _builddir="$1";;', '-s) shift; _statpid="$1";;']) + [
-    ': "${_robsddir:?}"',
-    '[ -z "${_statpid}" ] || kill "${_statpid}" || :',
-    '[ -n "${_builddir}" ] || return "${_err}"',
-    '_steps="$(step_path "${_builddir}")"',
-    'if has_steps "${_steps}" &&', '{ [ "${_err}" -ne 0 ] || step_eval -n end "${_steps}" 2>/dev/null; }', 'then',
-    'if report -b "${_builddir}" &&', '[ "${DETACH}" -ne 0 ]; then',
-    '_receiver="$(report_receiver -b "${_builddir}")"', 'sendmail "${_receiver}" <"$(config_value report-path)"',
-    'fi', 'fi',
-    'if step_eval -n end "${_steps}" 2>/dev/null; then', 'robsd_hook -v "step-exit=0" -v "step-name=end"', 'fi',
-    'lock_release "${_robsddir}" "${_builddir}" || :',
-    'has_steps "${_steps}" || rm -r "${_builddir}"',
-    'return "${_err}"']
+JOB_HEAD = ARGLOOP(['-b) shift; _builddir="$1";;', '-s) shift; _steps="$1";;', '-i) shift; _id="$1";;', '-n) shift; _name="$1";;']) + [
+    ': "${_builddir:?}"', ': "${_id:?}"', ': "${_name:?}"', ': "${_steps:?}"']
+JOB_STMTS = [
+    ('JLogId', ['_log="$(log_id -b "${_builddir}" -n "${_name}" -s "${_id}")"']),
+    ('JT0', ['_t0="$(date \'+%s\')"']),
+    ('JExec', ['step_exec -l "${_builddir}/${_log}" -s "${_name}" || _exit="$?"']),
+    ('JT1', ['_t1="$(date \'+%s\')"']),
+    ('JDuration', ['_d1="$((_t1 - _t0))"']),
+    ('JDelta', ['_d0="$(duration_prev "${_name}" || :)"', 'if [ -n "${_d0}" ]; then', '_delta="$((_d1 - _d0))"', 'else', '_delta=0', 'fi']),
+    ('JWriteDone', ['step_write -l "${_log}" -s "${_id}" -n "${_name}" -e "${_exit}" -d "${_d1}" \\', '-a "${_delta}" "${_steps}"']),
+    ('JHook', ['robsd_hook -v "step-exit=${_exit}" -v "step-name=${_name}"']),
+    ('JReturnIfNonzero', ['case "${_MODE}" in', 'robsd-regress)',
+                          'regress_step_after -b "${_builddir}" -e "${_exit}" -n "${_name}" || return 1', ';;',
+                          '*)', '[ "${_exit}" -eq 0 ] || return 1', ';;', 'esac']),
+]
+INFLIGHT = re.compile(r'^step_write -t -l "\$\{_log\}" -s "\$\{_id\}" -n "\$\{_name\}" -e (-?\d+) -d (-?\d+) "\$\{_steps\}"$')
+
+EXIT_HEAD = ARGLOOP(['-r) shift; _robsddir="$1";;', '-b) shift; _builddir="$1";;', '-s) shift; _statpid="$1";;']) + [': "${_robsddir:?}"']
+EXIT_STMTS = [
+    ('XKillStat', ['[ -z "${_statpid}" ] || kill "${_statpid}" || :']),
+    ('XReturnIfNoBuilddir', ['[ -n "${_builddir}" ] || return "${_err}"']),
+    ('XReportMail', ['if has_steps "${_steps}" &&', '{ [ "${_err}" -ne 0 ] || step_eval -n end "${_steps}" 2>/dev/null; }', 'then',
+                     'if report -b "${_builddir}" &&', '[ "${DETACH}" -ne 0 ]; then',
+                     '_receiver="$(report_receiver -b "${_builddir}")"', 'sendmail "${_receiver}" <"$(config_value report-path)"',
+                     'fi', 'fi']),
+    ('XEndHook', ['if step_eval -n end "${_steps}" 2>/dev/null; then', 'robsd_hook -v "step-exit=0" -v "step-name=end"', 'fi']),
+    ('XLockRelease', ['lock_release "${_robsddir}" "${_builddir}" || :']),
+    ('XRemoveIfEmpty', ['has_steps "${_steps}" || rm -r "${_builddir}"']),
+    ('XReturnErr', ['return "${_err}"']),
+]
+EXIT_SETUP = '_steps="$(step_path "${_builddir}")"'      # no effect of its own; must stand before the first use of $_steps
 
 LOCK_ACQUIRE = ['_rootdir="$1"; : "${_rootdir:?}"', '_builddir="$2"; : "${_builddir:?}"',
                 '_owner="$(cat "${_rootdir}/.running" 2>/dev/null || :)"',
@@ -92,37 +101,187 @@ RELEASE_TESTS = {
 LOCK_RELEASE = lambda test: ['_rootdir="$1"; : "${_rootdir:?}"', '_builddir="$2"; : "${_builddir:?}"', test,
                              'chflags nouchg "${_rootdir}/.running"', 'rm -f "${_rootdir}/.running"', 'else', 'return 1', 'fi']
 
+HOOK_BODIES = {
+    'HookStdinInherited': ['"${ROBSDHOOK}" -m "${_MODE}" -V ${ROBSDCONF:+"-C${ROBSDCONF}"} "$@" || :'],
+    'HookStdinNull': ['"${ROBSDHOOK}" -m "${_MODE}" -V ${ROBSDCONF:+"-C${ROBSDCONF}"} "$@" </dev/null || :'],
+}
 
-def match_robsd(b):
-    """-> (queue variant, barrier place)"""
-    for q, qlines in QUEUE.items():
-        for place in ('BarrierBeforeEverySyncStep', 'BarrierAfterEndCheck'):
-            mid = (BARRIER + END + SYNC) if place == 'BarrierBeforeEverySyncStep' else (END + BARRIER + SYNC)
-            if b == ROBSD_HEAD + qlines + ROBSD_PAR + mid + ROBSD_TAIL:
-                return q, place
-    # say where it first departs from the shipped form
-    want = ROBSD_HEAD + QUEUE['QWKeepStillRunning'] + ROBSD_PAR + BARRIER + END + SYNC + ROBSD_TAIL
-    for i, (x, y) in enumerate(zip(b, want)):
-        if x != y:
-            raise ValueError('util.sh robsd(): statement %d is %r, the modelled loop has %r' % (i, x, y))
-    raise ValueError('util.sh robsd(): %d statements, the modelled loop has %d' % (len(b), len(want)))
+# functions the loop relies on, pinned as text only
+TEXT_PINS = {
+    'lock_alive': ['_rootdir="$1"; : "${_rootdir:?}"', '_builddir="$2"; : "${_builddir:?}"',
+                   'touch "${_rootdir}/.running" 2>/dev/null || return 1', 'echo "${_builddir}" | cmp -s - "${_rootdir}/.running"'],
+    'has_steps': ['_file="$1"; : "${_file:?}"', 'while step_eval "${_i}" "${_file}" 2>/dev/null; do', '_i="$((_i + 1))"',
+                  'if [ "$(step_value skip)" -eq 1 ]; then', 'continue', 'else', 'return 0', 'fi', 'done', 'return 1'],
+    'steps': ['"${ROBSDSTEP}" -L -m "${_MODE}" ${ROBSDCONF:+"-C${ROBSDCONF}"} "$@"'],
+    'step_skip': ['_skip="$(step_value skip 2>/dev/null)"', '[ "${_skip}" -eq 1 ]'],
+}
+
+# canvas from the EXIT trap / the choice of the build directory to the end (normalised lines)
+TRAP_LINE = "trap 'trap_exit -r \"${ROBSDDIR}\" -b \"${BUILDDIR}\" -s \"${_statpid}\"' EXIT"
+STEP_NEXT_PLAIN = ['_step="$(step_next "$(step_path "${BUILDDIR}")")"']
+STEP_NEXT_CLEARS = ['_step="$(step_next "$(step_path "${BUILDDIR}")")" ||', '{ BUILDDIR=""; exit 1; }']      # /repo d2af489
+RESUME_POINT = lambda sn: ['if [ -z "${BUILDDIR}" ]; then', 'BUILDDIR="${ROBSDDIR}/$(build_id "${ROBSDDIR}")"', 'else'] + sn + ['fi']
+CANVAS_TAIL = [
+    'build_init "${BUILDDIR}"',
+    'lock_acquire "${ROBSDDIR}" "${BUILDDIR}"',
+    'if [ "${_step}" -eq 1 ]; then',
+    'if [ -n "${_comment}" ]; then', 'cat "${_comment}" >"$(config_value comment-path)"', 'fi',
+    'if [ -n "${SKIP}" ]; then', 'for _skip in ${SKIP}; do', '_id="$(step_id "${_skip}")"',
+    'step_write -S -t -s "${_id}" -n "${_skip}" -e 0 -d 0 -l "" \\', '"$(step_path "${BUILDDIR}")"', 'done', 'fi',
+    'if [ -n "${_tags}" ]; then', 'echo "${_tags}" >"$(config_value tags-path)"', 'fi',
+    '"${ROBSDSTAT}" -H >"${BUILDDIR}/stat.csv"', 'fi',
+    '"${ROBSDCLEAN}" -m "${_MODE}" ${ROBSDCONF:+"-C${ROBSDCONF}"}',
+    '"${ROBSDSTAT}" -i "${STATINTERVAL}" -u "$(whoami)" >>"${BUILDDIR}/stat.csv" 2>&1 &', '_statpid="$!"',
+    'if [ "${DETACH}" -eq 1 ]; then', 'DETACH=2', 'exec </dev/null >>"${BUILDDIR}/robsd.log" 2>&1',
+    "trap '-' EXIT", '{',
+    TRAP_LINE,
+    'robsd -b "${BUILDDIR}" -s "${_step}"', '} &', 'else', 'robsd -b "${BUILDDIR}" -s "${_step}"', 'fi']
+
+
+def parse_block(b, pos, table, stop, what):
+    """statement groups from b[pos:] until one of the lines in `stop` stands at statement level -> (constructors, position of
+    the stop line)"""
+    out = []
+    while True:
+        if pos >= len(b):
+            raise ValueError('%s: ran off the end of the function looking for %r' % (what, stop))
+        if b[pos] in stop:
+            return out, pos
+        for name, pat in sorted(table, key=lambda t: -len(t[1])):
+            if b[pos:pos + len(pat)] == pat:
+                out.append(name)
+                pos += len(pat)
+                break
+        else:
+            raise ValueError('%s: statement %d is %r - not a statement group of the modelled function' % (what, pos, b[pos]))
+
+
+def parse_robsd(b):
+    if b[:len(ROBSD_HEAD)] != ROBSD_HEAD:
+        d = next((i for i, (x, y) in enumerate(zip(b, ROBSD_HEAD)) if x != y), min(len(b), len(ROBSD_HEAD)))
+        raise ValueError('util.sh robsd(): statement %d before the loop changed: %r' % (d, b[d:d + 1]))
+    pos = len(ROBSD_HEAD)
+    head, pos = parse_block(b, pos, LOOP_STMTS, {IF_PARALLEL}, 'util.sh robsd() loop')
+    par, pos = parse_block(b, pos + 1, LOOP_STMTS, {'else'}, 'util.sh robsd() parallel branch')
+    syn, pos = parse_block(b, pos + 1, LOOP_STMTS, {'fi'}, 'util.sh robsd() synchronous branch')
+    tail, pos = parse_block(b, pos + 1, LOOP_STMTS, {'done'}, 'util.sh robsd() loop tail')
+    if b[pos + 1:]:
+        raise ValueError('util.sh robsd(): statements after the loop: %r' % b[pos + 1:])
+    return head, par, syn, tail
+
+
+def parse_job(b):
+    if b[:len(JOB_HEAD)] != JOB_HEAD:
+        raise ValueError('util.sh step_exec_job(): argument handling changed')
+    out, pos = [], len(JOB_HEAD)
+    while pos < len(b):
+        m = INFLIGHT.match(b[pos])
+        if m:
+            out.append('JWriteInflight (%s) (%s)' % (m.group(1), m.group(2)))
+            pos += 1
+            continue
+        for name, pat in sorted(JOB_STMTS, key=lambda t: -len(t[1])):
+            if b[pos:pos + len(pat)] == pat:
+                out.append(name)
+                pos += len(pat)
+                break
+        else:
+            raise ValueError('util.sh step_exec_job(): statement %d is %r - not a statement group of the modelled function' % (pos, b[pos]))
+    return out
+
+
+def parse_exit(b):
+    if b[:len(EXIT_HEAD)] != EXIT_HEAD:
+        raise ValueError('util.sh trap_exit(): argument handling changed')
+    out, pos, setup = [], len(EXIT_HEAD), None
+    while pos < len(b):
+        if b[pos] == EXIT_SETUP:
+            setup = len(out)
+            pos += 1
+            continue
+        for name, pat in sorted(EXIT_STMTS, key=lambda t: -len(t[1])):
+            if b[pos:pos + len(pat)] == pat:
+                if setup is None and '_steps' in ' '.join(pat):
+                    raise ValueError('util.sh trap_exit(): $_steps used before it is set')
+                out.append(name)
+                pos += len(pat)
+                break
+        else:
+            raise ValueError('util.sh trap_exit(): statement %d is %r - not a statement group of the modelled function' % (pos, b[pos]))
+    return out
+
+
+def canvas_tail(repo):
+    cv = norm(open(os.path.join(repo, 'canvas')).read())
+    cv = [l for l in cv if not l.startswith('info ')]
+    if 'set -eu' not in cv:
+        raise ValueError('canvas: set -eu missing')
+    t = next((i for i, l in enumerate(cv) if l == TRAP_LINE), None)
+    r = next((i for i, l in enumerate(cv) if l == RESUME_POINT([])[0]), None)
+    if t is None or r is None:
+        raise ValueError('canvas: the EXIT trap or the choice of the build directory is missing')
+    if cv.index('set -eu') > min(t, r):
+        raise ValueError('canvas: set -eu after the trap')
+    got = cv[min(t, r):]
+    for form, want in (('RFTrapOnBuilddir', [TRAP_LINE] + RESUME_POINT(STEP_NEXT_PLAIN) + CANVAS_TAIL),
+                       ('RFTrapLater', RESUME_POINT(STEP_NEXT_PLAIN) + [TRAP_LINE] + CANVAS_TAIL),
+                       ('RFBuilddirCleared', [TRAP_LINE] + RESUME_POINT(STEP_NEXT_CLEARS) + CANVAS_TAIL)):
+        if got == want:
+            return form
+    want = [TRAP_LINE] + RESUME_POINT(STEP_NEXT_CLEARS) + CANVAS_TAIL
+    d = next((i for i, (x, y) in enumerate(zip(got, want)) if x != y), min(len(got), len(want)))
+    raise ValueError('canvas: statement %d from the EXIT trap on changed: %r (modelled: %r)' % (d, got[d:d + 1], want[d:d + 1]))
+
+
+def resume_failure_form(repo):
+    """the five entry scripts: what follows a step_next that fails (nothing but skip records, or a step file that cannot be
+    read)?  RFTrapOnBuilddir: the EXIT trap is installed first and the plain assignment fails under set -e - trap_exit then runs
+    on $BUILDDIR and takes it for an empty build; RFTrapLater: step_next is asked before the trap exists; RFBuilddirCleared:
+    `|| { BUILDDIR=""; exit 1; }` - the trap returns on its first test.  All five scripts must have the same form."""
+    ans = {}
+    for f in ('canvas', 'robsd', 'robsd-cross', 'robsd-ports', 'robsd-regress'):
+        src = norm(open(os.path.join(repo, f)).read())
+        t = [i for i, l in enumerate(src) if l == TRAP_LINE]
+        n = [i for i, l in enumerate(src) if l.startswith('_step="$(step_next ')]
+        if not t or len(n) != 1:
+            raise ValueError('%s: EXIT trap or the step_next call not found' % f)
+        k = n[0]
+        if src[k:k + 2] == STEP_NEXT_CLEARS and t[0] < k:
+            ans[f] = 'RFBuilddirCleared'
+        elif src[k:k + 1] == STEP_NEXT_PLAIN and src[k + 1:k + 2] == ['fi']:
+            ans[f] = 'RFTrapOnBuilddir' if t[0] < k else 'RFTrapLater'
+        else:
+            raise ValueError('%s: the step_next call has an unknown form: %r' % (f, src[k:k + 2]))
+    if len(set(ans.values())) != 1:
+        raise ValueError('the entry scripts disagree on what follows a failing step_next: %r' % ans)
+    return ans['canvas']
+
+
+WAIT_STUB = ['#else', 'int', 'main(void)', '{', 'return 0;', '}', '#endif']
+
+
+def wait_stub(repo):
+    """robsd-wait.c: everything functional stands under #ifdef __OpenBSD__; elsewhere the program is `return 0`.  No line of
+    the functional part is translated (kqueue); what is pinned is that HERE the program is the stub, so that the polling
+    stand-in of the harness is the only robsd-wait there is - a functional version for this platform would be noticed."""
+    src = [l.strip() for l in open(os.path.join(repo, 'robsd-wait.c')).read().split('\n') if l.strip()]
+    if src[0] != '#ifdef __OpenBSD__':
+        raise ValueError('robsd-wait.c: no longer starts with #ifdef __OpenBSD__ - it may be functional on this platform: replace the stand-in')
+    i = max(k for k, l in enumerate(src) if l == '#else') if '#else' in src else -1
+    if i < 0 or src[i:] != WAIT_STUB:
+        raise ValueError('robsd-wait.c: the non-OpenBSD part is no longer the stub `int main(void) { return 0; }`: %r' % src[i:][:12])
 
 
 def pins(repo):
+    wait_stub(repo)
     src = open(os.path.join(repo, 'util.sh')).read()
     if not re.search(r'^robsd\(\) \{\n(?:\s*local [^\n]*\n)*?\s*local _jobs=""\n', src, re.M):
         raise ValueError('util.sh robsd(): $_jobs is no longer a local that starts empty')
-    queue, barrier = match_robsd(lines(src, 'robsd'))
-    b = lines(src, 'step_exec_job')
-    if b != STEP_EXEC_JOB:
-        d = next((i for i, (x, y) in enumerate(zip(b, STEP_EXEC_JOB)) if x != y), min(len(b), len(STEP_EXEC_JOB)))
-        raise ValueError('util.sh step_exec_job(): statement %d changed: %r' % (d, b[d:d + 1]))
+    head, par, syn, tail = parse_robsd(lines(src, 'robsd'))
+    job = parse_job(lines(src, 'step_exec_job'))
     if not re.search(r'^step_exec_job\(\) \{\n(?:\s*local [^\n]*\n)*?\s*local _exit=0\n', src, re.M):
         raise ValueError('util.sh step_exec_job(): $_exit no longer starts as 0')
-    b = lines(src, 'trap_exit')
-    if b != TRAP_EXIT:
-        d = next((i for i, (x, y) in enumerate(zip(b, TRAP_EXIT)) if x != y), min(len(b), len(TRAP_EXIT)))
-        raise ValueError('util.sh trap_exit(): statement %d changed: %r' % (d, b[d:d + 1]))
+    xb = parse_exit(lines(src, 'trap_exit'))
     if not re.search(r'^trap_exit\(\) \{\n\s*local _err="\$\?"\n', src, re.M):
         raise ValueError('util.sh trap_exit(): $_err is no longer the status the shell exits with')
     b = lines(src, 'lock_acquire')
@@ -132,38 +291,56 @@ def pins(repo):
     rel = next((k for k, t in RELEASE_TESTS.items() if b == LOCK_RELEASE(t)), None)
     if rel is None:
         raise ValueError('util.sh lock_release(): body changed: %r' % b)
-    # canvas: set -eu, trap, build_init, lock_acquire before the first step is written or run
-    cv = open(os.path.join(repo, 'canvas')).read()
-    order = ['\nset -eu\n', "\ntrap 'trap_exit -r \"${ROBSDDIR}\" -b \"${BUILDDIR}\" -s \"${_statpid}\"' EXIT\n",
-             '\nbuild_init "${BUILDDIR}"\n', '\nlock_acquire "${ROBSDDIR}" "${BUILDDIR}"\n', 'step_write -S -t -s "${_id}" -n "${_skip}" -e 0 -d 0 -l ""',
-             'robsd -b "${BUILDDIR}" -s "${_step}"']
-    pos = -1
-    for o in order:
-        p = cv.find(o, pos + 1)
-        if p < 0:
-            raise ValueError('canvas: %r missing or out of order' % o.strip())
-        pos = p
-    return {'queue': queue, 'barrier': barrier, 'release': rel}
+    b = lines(src, 'robsd_hook')
+    hook = next((k for k, t in HOOK_BODIES.items() if b == t), None)
+    if hook is None:
+        raise ValueError('util.sh robsd_hook(): body changed: %r' % b)
+    if not re.search(r'^jobs_count\(\) \(\n\t# shellcheck disable=SC2068\n\tset -- \$@\n\techo "\$#"\n\)\n', src, re.M):
+        raise ValueError('util.sh jobs_count(): body changed (pinned as text)')
+    for fn, want in TEXT_PINS.items():
+        b = lines(src, fn)
+        if b != want:
+            raise ValueError('util.sh %s(): body changed (pinned as text): %r' % (fn, b))
+    form = canvas_tail(repo)
+    if resume_failure_form(repo) != form:
+        raise ValueError('canvas: the form of the resume point read two ways')
+    return {'resume_failure': form, 'head': head, 'par': par, 'sync': syn, 'tail': tail, 'job': job, 'exit': xb, 'release': rel, 'hook': hook}
+
+
+def coq_list(l):
+    return '[' + '; '.join(l) + ']'
 
 
 def generate(repo):
     p = pins(repo)
     out = ['(* Gen_Orch.v - GENERATED by harness/t_orch.py from util.sh and canvas; do not edit. *)',
            'From Robsd Require Import Orch.ShapeDefs.',
+           'Local Open Scope Z_scope.',
            '',
-           '(* robsd(): the loop over the schedule *)',
-           'Definition robsd_loop : loop_shape :=',
-           '  mkloop true true %s true %s true true true.' % (p['queue'], p['barrier']),
+           '(* robsd(): the body of the loop over the schedule, statement groups in source order *)',
+           'Definition robsd_body : loop_body :=',
+           '  mkbody %s' % coq_list(p['head']),
+           '         %s' % coq_list(p['par']),
+           '         %s' % coq_list(p['sync']),
+           '         %s.' % coq_list(p['tail']),
            '',
            '(* step_exec_job() *)',
-           'Definition step_exec_job_shape : job_shape := mkjob (-1)%Z true true true.',
+           'Definition step_exec_job_body : list jstmt :=',
+           '  %s.' % coq_list(p['job']),
            '',
            '(* trap_exit() *)',
-           'Definition trap_exit_shape : exit_shape := mkexit true true true true true.',
+           'Definition trap_exit_body : list xstmt :=',
+           '  %s.' % coq_list(p['exit']),
            '',
            '(* lock_acquire() / lock_release() *)',
            'Definition lock_acquire_test : acquire_test := AcqOwnerNonEmptyAndDifferent.',
            'Definition lock_release_test : release_test := %s.' % p['release'],
+           '',
+           '(* robsd_hook() *)',
+           'Definition robsd_hook_stdin : hook_stdin := %s.' % p['hook'],
+           '',
+           '(* canvas, robsd, robsd-cross, robsd-ports, robsd-regress: what a failing step_next leads to *)',
+           'Definition resume_failure_form : resume_failure := %s.' % p['resume_failure'],
            '']
     return {'Gen_Orch.v': '\n'.join(out)}
 
